@@ -405,7 +405,8 @@ def c02_e(ctx: Ctx):
 def c02_f(ctx: Ctx):
     """Id / prefix resolution uses the directory listing, never an enumeration of the state point cache (same obligation as C08-a)."""
     from .c08 import c08_a, c08_e
-    res = c08_a(ctx) + c08_e(ctx)
+    from .c03 import c03_h
+    res = c08_a(ctx) + c08_e(ctx) + c03_h(ctx)
     for r in res:
         r.rule = "C02-f"
     return res
